@@ -183,6 +183,9 @@ func charvecMain(args []string) int {
 				w[i] = expandClass(b, rng)
 			}
 			w = exact(w)
+			if startsLikeBOM(w) {
+				continue // the expansion happened to spell a byte-order mark: the reference facts of the base string do not apply
+			}
 			check(v, w, false)
 			detectCheck(v, w, len(w), 3072)
 		}
